@@ -13,7 +13,8 @@ use linfa::traits::Transformer;
 // "a fixed map applied row by row".  Oracle: textbook norms  l1 = sum |x_j|, max = max_j |x_j|,
 // l2 = sqrt(sum x_j^2)  evaluated on small-integer floats (exact up to the one final division).
 
-// measured: rows=2,cols=2 exhausts memory (> 25 GB after 5 min, all three norms) while rows=1,cols=2 takes 20-50 s;
+// measured: rows=2,cols=2 ran out of memory twice (CBMC killed after 2-5 min, all three norms, 2 jobs sharing ~25 GB free)
+// while rows=1,cols=2 takes 10-50 s;
 // the formula units therefore use ONE row of two columns, and rows=2 is covered with one column (c16_norm_two_rows).
 fn c16_row_1x2() -> ([i32; 2], [f32; 2], Array2<f32>) {
     let (a, af) = c16_si(8);
